@@ -5,6 +5,7 @@ package internal_test
 import (
 	"fmt"
 	"math/big"
+	"sort"
 
 	"github.com/bilibili/smgo/sm2/internal"
 	"verif/refs/sm2ref"
@@ -45,4 +46,13 @@ func showRef(r sm2ref.Point) string {
 		return "O"
 	}
 	return fmt.Sprintf("(%x,%x)", r.X, r.Y)
+}
+
+func sortedPts(m map[string]sm2ref.Point) []string {
+	var ks []string
+	for k := range m {
+		ks = append(ks, k)
+	}
+	sort.Strings(ks)
+	return ks
 }
